@@ -230,7 +230,7 @@ fn build_partial_eq_body(
         }
     };
     Ok(quote! {
-        fn eq(&self, other: &Self) -> bool {
+        fn eq(&self, other: &Self) -> ::core::primitive::bool {
             #body
         }
     })
@@ -252,7 +252,7 @@ fn build_partial_eq_expr(
     let build_expr_by_eq = |by: &Expr| {
         quote! {
             {
-                fn #fn_ident<__T: ?::core::marker::Sized>(this: &__T, other: &__T, eq: impl ::core::ops::Fn(&__T, &__T) -> bool) -> bool {
+                fn #fn_ident<__T: ?::core::marker::Sized>(this: &__T, other: &__T, eq: impl ::core::ops::Fn(&__T, &__T) -> ::core::primitive::bool) -> ::core::primitive::bool {
                     eq(this, other)
                 }
                 #fn_ident(&#this, &#other, #by)
@@ -279,7 +279,7 @@ fn build_partial_eq_expr(
     if let Some(by) = &cmp.partial_ord.by {
         return Ok(quote! {
             {
-                fn #fn_ident<__T: ?::core::marker::Sized>(this: &__T, other: &__T, partial_cmp: impl ::core::ops::Fn(&__T, &__T) -> ::core::option::Option<::core::cmp::Ordering>) -> bool {
+                fn #fn_ident<__T: ?::core::marker::Sized>(this: &__T, other: &__T, partial_cmp: impl ::core::ops::Fn(&__T, &__T) -> ::core::option::Option<::core::cmp::Ordering>) -> ::core::primitive::bool {
                     partial_cmp(this, other) == ::core::option::Option::Some(::core::cmp::Ordering::Equal)
                 }
                 #fn_ident(&#this, &#other, #by)
@@ -294,7 +294,7 @@ fn build_partial_eq_expr(
     if let Some(by) = &field.hattrs.cmp.ord.by {
         return Ok(quote! {
             {
-                fn #fn_ident<__T: ?::core::marker::Sized>(this: &__T, other: &__T, cmp: impl ::core::ops::Fn(&__T, &__T) -> ::core::cmp::Ordering) -> bool {
+                fn #fn_ident<__T: ?::core::marker::Sized>(this: &__T, other: &__T, cmp: impl ::core::ops::Fn(&__T, &__T) -> ::core::cmp::Ordering) -> ::core::primitive::bool {
                     cmp(this, other) == ::core::cmp::Ordering::Equal
                 }
                 #fn_ident(&#this, &#other, #by)
@@ -726,7 +726,7 @@ fn build_hash_body(
             quote! {
                 match self {
                     #(#arms)*
-                    _ => unreachable!(),
+                    _ => ::core::unreachable!(),
                 }
             }
         }
@@ -1119,10 +1119,10 @@ fn build_to_index_fn(variants: &[VariantEntry]) -> TokenStream {
         arms.push(quote!((#pat) => #index,));
     }
     quote! {
-        let to_index = |this: &Self| -> usize {
+        let to_index = |this: &Self| -> ::core::primitive::usize {
             match this {
                 #(#arms)*
-                _ => unreachable!(),
+                _ => ::core::unreachable!(),
             }
         };
     }
